@@ -33,6 +33,66 @@ theorem colourWindow_isSome (st : Store T) (h : st.WF) (o : DObj T) (ho : o ∈ 
   · simp; omega
   · simp
 
+theorem prevColourChange_isSome (st : Store T) (h : st.WF) (reps : List Rep) (c : ColourOf) (mono : Mono)
+    (hm : monoOf reps c = some mono) (hv : ∀ q ∈ mono, q < st.objects.length) :
+    ∃ r, prevColourChange st reps c = some r := by
+  unfold prevColourChange
+  simp only [hm, Option.bind_eq_bind, Option.bind_some]
+  cases hh : mono.head? with
+  | none => exact ⟨none, rfl⟩
+  | some f =>
+    have hf : f < st.objects.length := hv f (List.mem_of_head? hh)
+    obtain ⟨r, hr⟩ := previousNote_isSome st h st.objects[f] 0
+    exact ⟨r, by simp [List.getElem?_eq_getElem hf, hr]⟩
+
+theorem nextColourChange_isSome (st : Store T) (h : st.WF) (reps : List Rep) (c : ColourOf) (mono : Mono)
+    (hm : monoOf reps c = some mono) (hv : ∀ q ∈ mono, q < st.objects.length) :
+    ∃ r, nextColourChange st reps c = some r := by
+  unfold nextColourChange
+  simp only [hm, Option.bind_eq_bind, Option.bind_some]
+  cases hh : mono.getLast? with
+  | none => exact ⟨none, rfl⟩
+  | some l =>
+    have hl : l < st.objects.length := hv l (List.mem_of_getLast? hh)
+    obtain ⟨r, hr⟩ := nextNote_isSome st h st.objects[l] 0
+    exact ⟨r, by simp [List.getElem?_eq_getElem hl, hr]⟩
+
+/-- The evaluator-time lookups never fail: the colour data of every object leads to an existing
+streak whose first / last hit object can be dereferenced. -/
+theorem lookupsOf_spec (st : Store T) (h : st.WF) (monos : List Mono) (alts : List Alt) (reps : List Rep)
+    (ivs : List Nat) (colour : List ColourOf) (hci : ColourInv st monos alts reps ivs colour) :
+    ∃ ls, lookupsOf st reps colour = some ls ∧ ls.length = st.objects.length := by
+  unfold lookupsOf
+  obtain ⟨ls, h1, h2⟩ := mapM_option_some (fun (op : DObj T × Nat) => do
+      let c ← colour[op.2]?
+      let a ← previousNote st op.1 0
+      let b ← nextNote st op.1 0
+      let d ← previousMono st op.1 0
+      let e ← previousMono st op.1 1
+      let f ← prevColourChange st reps c
+      let g ← nextColourChange st reps c
+      some ([a, b, d, e, f, g].map fun x => x.map (·.idx))) st.objects.zipIdx (by
+    intro op hop
+    have hget := List.mem_zipIdx_iff_getElem?.mp hop
+    have hp : op.2 < st.objects.length := lt_of_getElem?_eq_some hget
+    have hlt : op.2 < colour.length := by rw [hci.colour_len]; exact hp
+    have hc : colour[op.2]? = some colour[op.2] := List.getElem?_eq_getElem hlt
+    obtain ⟨rep, alt, mono, r1, r2, r3, _⟩ := hci.colour_points _ _ hc
+    have hm : monoOf reps colour[op.2] = some mono := by
+      simp [monoOf, r1, r2, r3]
+    have hv : ∀ q ∈ mono, q < st.objects.length :=
+      hci.positions_valid rep (List.mem_of_getElem? r1) alt (List.mem_of_getElem? r2) mono
+        (List.mem_of_getElem? r3)
+    obtain ⟨a, ha⟩ := previousNote_isSome st h op.1 0
+    obtain ⟨b, hb⟩ := nextNote_isSome st h op.1 0
+    obtain ⟨d, hd⟩ := previousMono_isSome st h op.1 0
+    obtain ⟨e, he⟩ := previousMono_isSome st h op.1 1
+    obtain ⟨f, hf⟩ := prevColourChange_isSome st h reps _ mono hm hv
+    obtain ⟨g, hg⟩ := nextColourChange_isSome st h reps _ mono hm hv
+    refine ⟨[a, b, d, e, f, g].map fun x => x.map (·.idx), ?_⟩
+    simp only [hc, ha, hb, hd, he, hf, hg, Option.bind_eq_bind, Option.bind_some])
+  exact ⟨ls, h1, by simpa using h2⟩
+
 /-- All invariants of a preprocessed structure. -/
 structure PreInv (objs : List (Obj T)) (p : Pre T) : Prop where
   wf : p.store.WF
@@ -41,6 +101,7 @@ structure PreInv (objs : List (Obj T)) (p : Pre T) : Prop where
   colour : ColourInv p.store p.monos p.alts p.reps p.repIntervals p.colour
   rhythm : RhythmInv p.store p.rgroups p.pgroups p.pgInterval p.pgRatio p.rhythm
   windows_len : p.windows.length = p.store.objects.length
+  lookups_len : p.lookups.length = p.store.objects.length
 
 /-- `create_difficulty_objects` never fails, whatever the objects, the clock rate and the
 arithmetic. -/
@@ -52,9 +113,10 @@ theorem preprocess_spec (A : Arith T) (clock : T) (objs : List (Obj T)) :
     rhythmOf_full A st hwf.notes_lt
   obtain ⟨ws, hw, hwl⟩ := mapM_option_some (colourWindow st) st.objects
     (fun o ho => by obtain ⟨w, hw, _⟩ := colourWindow_isSome st hwf o ho; exact ⟨w, hw⟩)
-  refine ⟨⟨st, monos, alts, reps, ivs, colour, rgs, pgs, pgi, pgr, rh, ws⟩, ?_, ?_⟩
-  · simp only [preprocess, hb, hc, hr, hw, Option.bind_eq_bind, Option.bind_some]
-  · exact ⟨hwf, hlen, hkinds, hci, ⟨r1, r2, r3, r4, r5, r6, r7, r8⟩, hwl⟩
+  obtain ⟨ls, hl, hll⟩ := lookupsOf_spec st hwf monos alts reps ivs colour hci
+  refine ⟨⟨st, monos, alts, reps, ivs, colour, rgs, pgs, pgi, pgr, rh, ws, ls⟩, ?_, ?_⟩
+  · simp only [preprocess, hb, hc, hr, hw, hl, Option.bind_eq_bind, Option.bind_some]
+  · exact ⟨hwf, hlen, hkinds, hci, ⟨r1, r2, r3, r4, r5, r6, r7, r8⟩, hwl, hll⟩
 
 /-- Exact integer arithmetic (times in ms, truncating division) for concrete witnesses. -/
 def intArith : Arith Int where
